@@ -165,6 +165,10 @@ X86Step(P, s) ==
      LET v == X86Read(s, i.a[2])
      IN IF IsBadOrEx(v) THEN BadToFail(s, v) ELSE Next1(X86Write(s, i.a[1], v))
   ELSE IF op = "nop" THEN Next1(s)
+  ELSE IF op = "xchg" THEN          \* both operands read before either is written; flags untouched
+     LET x == X86Read(s, i.a[1]) y == X86Read(s, i.a[2])
+     IN IF IsBadOrEx(x) THEN BadToFail(s, x) ELSE IF IsBadOrEx(y) THEN BadToFail(s, y)
+        ELSE LET s1 == X86Write(s, i.a[1], y) IN IF s1.status # "run" THEN s1 ELSE Next1(X86Write(s1, i.a[2], x))
   ELSE IF op \in {"add", "sub", "imul"} THEN
      LET x == X86Read(s, i.a[1]) y == X86Read(s, i.a[2])
          r == IF op = "add" THEN AddV(x, y) ELSE IF op = "sub" THEN SubV(x, y) ELSE MulV(x, y)
